@@ -95,6 +95,10 @@ func c16Ops() []c16op {
 			_, e := rtmr.GetRtmrsFromTdQuote(q)
 			return res(e)
 		}},
+		{"verify.SupportedTcbLevelsFromCollateral", func(q *pb.QuoteV4, _ []byte, _ *validate.Options, w *world.World) string {
+			_, _, e := verify.SupportedTcbLevelsFromCollateral(q, w.Options(world.L1))
+			return res(e)
+		}},
 	}
 }
 
@@ -171,14 +175,15 @@ func runC16(r *mc.Run) {
 	type shape struct {
 		name string
 		raw  []byte
+		w    *world.World // the world whose collateral matches this quote (nil: the base world)
 	}
-	shapes := []shape{{"base", raw0}}
+	shapes := []shape{{"base", raw0, nil}}
 	{
 		chainShape := func(name string, f func(c []byte) []byte) {
 			p := w.Parts.Clone()
 			p.Chain = f(append([]byte(nil), p.Chain...))
 			b, _ := p.Bytes()
-			shapes = append(shapes, shape{name, b})
+			shapes = append(shapes, shape{name, b, nil})
 		}
 		noNul := func(c []byte) []byte { return bytes.TrimRight(c, "\x00") }
 		chainShape("chain/interior-nul", func(c []byte) []byte {
@@ -204,11 +209,44 @@ func runC16(r *mc.Run) {
 			w2 := world.Honest("T")
 			w2.Spec.Auth = world.Fill("c16-auth", al)
 			w2.Parts = w2.Spec.Parts()
-			shapes = append(shapes, shape{fmt.Sprintf("auth/len%d+no-extra", al), w2.Raw()})
+			shapes = append(shapes, shape{fmt.Sprintf("auth/len%d+no-extra", al), w2.Raw(), nil})
 		}
+	}
+	// quotes that take the rarely used branches of the collateral checks: a TDX module version that selects a module
+	// identity (with module SVN differing from the following component), high SVNs, a platform level found at position 2
+	for _, v := range []struct {
+		name string
+		tee  []byte
+	}{{"tdx-module-identity", []byte{3, 1, 5, 0, 0, 0, 0, 0, 0, 0, 0, 0, 0, 0, 0, 1}}, {"tdx-module-identity-high", []byte{0x83, 0x0a, 0x85, 7, 6, 5, 4, 3, 2, 1, 0, 0, 0, 0, 0, 0xff}}} {
+		w3 := world.Honest("T")
+		w3.Spec.TeeTcbSvn = v.tee
+		w3.Spec.Extra = world.Fill("c16-extra", 8)
+		w3.Parts = w3.Spec.Parts()
+		ti := world.DefaultTcbInfo(w3.Plat, v.tee)
+		above := world.PlatformLevel(w3.Plat, v.tee, "OutOfDate")
+		cs := append([]world.Comp(nil), above.Tcb.Sgx...)
+		cs[4].Svn++
+		above.Tcb.Sgx = cs
+		ti.TcbLevels = append([]world.Level{above, above}, ti.TcbLevels...)
+		ti.TdxModuleIdentities = []world.ModuleIdentity{
+			{ID: "TDX_7f", Mrsigner: strings.Repeat("00", 48), Attributes: "0000000000000000", AttributesMask: "FFFFFFFFFFFFFFFF", TcbLevels: []world.Level{{Tcb: world.Tcb{Isvsvn: world.IntP(0)}, TcbDate: "2028-01-01T00:00:00Z", TcbStatus: "Revoked"}}},
+			{ID: fmt.Sprintf("TDX_%02x", v.tee[1]), Mrsigner: strings.Repeat("00", 48), Attributes: "0000000000000000", AttributesMask: "FFFFFFFFFFFFFFFF",
+				TcbLevels: []world.Level{{Tcb: world.Tcb{Isvsvn: world.IntP(int(v.tee[0]) + 1)}, TcbDate: "2029-03-01T00:00:00Z", TcbStatus: "OutOfDate"},
+					{Tcb: world.Tcb{Isvsvn: world.IntP(int(v.tee[0]))}, TcbDate: "2029-01-01T00:00:00Z", TcbStatus: "UpToDate"}}}}
+		w3.TcbInfo = ti
+		w3.Finish()
+		if err := w3.Verify(world.L2); err != nil {
+			r.HarnessError("C16: the %s world is not accepted: %v", v.name, err)
+			return
+		}
+		shapes = append(shapes, shape{v.name, w3.Raw(), w3})
 	}
 	for _, sh := range shapes {
 		raw0 := sh.raw
+		w := w
+		if sh.w != nil {
+			w = sh.w
+		}
 		parsed, err := safeToProto(raw0)
 		if err != nil {
 			r.HarnessError("C16: quote shape %s does not parse: %v", sh.name, err)
